@@ -9,7 +9,7 @@ expected survivors and their coordinates, the driver builds the Motl, calls the 
 field by field.  A case is a sequence of 1..3 calls on the same Motl that reuse the caller's own argument objects (the
 same dimension table / point table / mask list); every call is judged against the original argument values.  Dimension
 tables and tomogram lists include tomograms without particles; particle tables come with default, permuted and gapped
-row labels.  Cases TLC flags as ambiguous (exact distance ties, positions / masks on which the two possible
+row labels.  Cases TLC flags as ambiguous (positions / masks on which the two possible
 mask index conventions differ, odd box sizes) are discarded before the implementation is called.
 """
 import json
@@ -332,9 +332,33 @@ def gen_mask_op(rng, ps, tomos, extra, dmap):
     return {"name": "mask", "tl": tl, "masks": [[t, shape, sorted(list(z) for z in zero)] for t, shape, zero in masks]}
 
 
+# lattice offsets with an exactly representable length: (vector, length) - Pythagorean triples / quadruples
+TIE_OFFSETS = [((3, 4, 0), 5), ((5, 0, 0), 5), ((6, 8, 0), 10), ((2, 3, 6), 7), ((1, 4, 8), 9), ((0, 0, 8), 8), ((4, 4, 2), 6),
+               ((2, 6, 9), 11), ((8, 9, 12), 17), ((1, 2, 2), 3), ((2, 10, 11), 15), ((0, 12, 5), 13)]
+
+
 def gen_points(rng, ps, tomos, dmap):
+    """-> (points, radius or None).  With ties: some points sit at a distance from a particle that equals the radius
+    exactly (offset = permuted / signed Pythagorean vector x k, radius = its length x k)."""
     pts = []
-    for _ in range(rng.randint(1, 6)):
+    radius = None
+    if rng.random() < 0.45:
+        vec, ln = rng.choice(TIE_OFFSETS)
+        k = rng.choice([1, 2, 4])
+        radius = ln * k
+        for _ in range(rng.randint(1, 3)):
+            src = rng.choice(ps)
+            v = list(vec)
+            rng.shuffle(v)
+            v = [k * x * rng.choice([-1, 1]) for x in v]
+            if rng.random() < 0.3:                      # another offset of the same length, if there is one
+                alt = [o for o in TIE_OFFSETS if o[1] * k == radius or o[1] == radius]
+                if alt:
+                    o = rng.choice(alt)
+                    f = radius // o[1]
+                    v = [f * x * rng.choice([-1, 1]) for x in rng.sample(list(o[0]), 3)]
+            pts.append([src[1]] + [src[2 + i] + src[5 + i] + v[i] for i in range(3)])
+    for _ in range(rng.randint(0 if pts else 1, 5)):
         if rng.random() < 0.7:
             src = rng.choice(ps)
             pos = [src[2 + i] + src[5 + i] + rng.randint(-20, 20) for i in range(3)]
@@ -343,7 +367,8 @@ def gen_points(rng, ps, tomos, dmap):
             t = rng.choice(tomos + [9])
             pos = [rng.randint(0, 8 * dmap.get(t, [10, 10, 10])[i]) for i in range(3)]
         pts.append([t] + pos)
-    return pts
+    rng.shuffle(pts)
+    return pts, radius
 
 
 def gen_case(rng, idx, big):
@@ -380,6 +405,7 @@ def gen_case(rng, idx, big):
     rng.shuffle(ps)
     ops = []
     pts = None
+    tie_r = None
     mask_op = None
     for name in names:
         if name == "oob":
@@ -396,9 +422,13 @@ def gen_case(rng, idx, big):
             ops.append({"name": "trim", "start": start, "end": end})
         elif name == "points":
             if pts is None:
-                pts = gen_points(rng, ps, tomos, dmap)
+                pts, tie_r = gen_points(rng, ps, tomos, dmap)
             rs = [4, 8, 12, 17, 24, 33, 40]
-            ops.append({"name": "points", "pts": pts, "r": rng.choice(rs)})
+            if tie_r is not None and rng.random() < 0.8:
+                ops.append({"name": "points", "pts": pts, "r": tie_r})
+                tie_r = None if rng.random() < 0.5 else tie_r
+            else:
+                ops.append({"name": "points", "pts": pts, "r": rng.choice(rs)})
         else:
             if mask_op is None:
                 mask_op = gen_mask_op(rng, ps, tomos, extra, dmap)
@@ -415,7 +445,8 @@ def run(ctx):
         "inside <=> 0 <= c < dim on every axis (complete position c, the particle's own tomogram)",
         "'whole' uses half-width box/2; box sizes are even (odd sizes flagged ambiguous by the spec and not run)",
         "trimming acts on x,y,z: kept iff start <= x <= end, survivors get x - (start - 1)",
-        "reference points remove at distance <= r; exact ties are flagged by the spec and not run",
+        "reference points remove at distance <= r, including particles exactly on the radius (lattice coordinates and "
+        "radii make d = r exact in binary floating point; ties are generated from Pythagorean offsets)",
         "mask cases avoid positions and masks on which int(c) and c-1 indexing disagree (flagged by the spec)",
         "projection: float fields compared bit-exactly with lattice values / fixed per-id values",
     ]
@@ -451,6 +482,7 @@ def run(ctx):
         out = {}
         for r in res.tagged.get("RES", []):
             out.setdefault(r["id"], {})[r["step"]] = {"ps": r["ps"], "status": r["status"], "amb": r["amb"]}
+            ctx.extra["particles_exactly_on_a_radius"] = ctx.extra.get("particles_exactly_on_a_radius", 0) + r.get("ties", 0)
         if len(out) != n:
             raise core.MachineryError("SpatialFilter returned results for %d of %d cases\n%s" % (len(out), n, res.stdout[-1500:]))
         for i, c in enumerate(cases):
